@@ -940,6 +940,23 @@ fn wrapper_cross_check(scn: &PnmScenario, bytes: &[u8], base_out: &Option<PnmOut
             }
         }
     }
+    // the same path rewritten with content of the same length must be read afresh
+    if let Some(variant) = same_length_variant(bytes) {
+        if let (Ok(()), Ok(w)) = (std::fs::write(&path, &variant), decode_plain(&variant)) {
+            let want2 = observe(w, "", &None, &mut RunResult::default());
+            match catch(|| re::util::pnm::load_pnm(&path)) {
+                Err(c) => rr.violate(Violation::new("W", format!("reload-{}", c.class()), format!("load_pnm after a same-length rewrite {}", c.detail()))),
+                Ok(r) => {
+                    let got = observe(r, "", &None, &mut RunResult::default());
+                    let d = diff(&got, &want2);
+                    rr.oracle("W", d == "equal");
+                    if d != "equal" {
+                        rr.violate(Violation::new("W", format!("reload-{d}"), format!("the file at the same path was rewritten with different bytes of the same length; load_pnm gave {} but the file now says {}", got.brief(), want2.brief())));
+                    }
+                }
+            }
+        }
+    }
     // save_ppm over a longer, older file; then the file must hold exactly this image
     if let PnmWork::Lib(li) = &scn.work {
         let (w, h, px) = li.expected();
